@@ -1519,6 +1519,112 @@ def o_dispatch2(mir, tier, seed):
     return dict(theory='Real + Bool; geometry parts opaque; nested distances symmetric uninterpreted values', functions=['Distance<F,&Point,&Polygon>', 'Distance<F,&Line,&Line>', 'Distance<F,&Line,&LineString>', 'Distance<F,&Line,&Polygon>', 'Distance<F,&LineString,&LineString>', 'Distance<F,&LineString,&Polygon> for Euclidean'], paths=npaths, status=st, info=info, model=None, replay=('polygon_distance', ''))
 
 
+# ---- C02: how coordinate_position is assembled from ring / member positions
+
+@obligation('C02', 'coordinate_position_assembly', 'with the position of the query relative to each ring / member uninterpreted (three-valued): Polygon (0-3 holes, holes pairwise not overlapping) reports inside / boundary / neither exactly as "inside the shell and outside every hole" / "on the shell or on a hole" / otherwise, nothing for an empty polygon; MultiPolygon (1-3 members) is inside if any member is, and adds ONE boundary count if any member has the query on its boundary; MultiLineString and GeometryCollection add up their members\' counts; the trait method maps (inside flag, boundary count 0-4) to OnBoundary for odd counts, else Inside / Outside (each path re-executed from scratch)')
+def o_position_assembly(mir, tier, seed):
+    from mir2smt import SliceIter
+    CP = r'algorithm::coordinate_position::<impl at [^>]*>::calculate_coordinate_position'
+    bad, npaths = [], 0
+    T = IntTheory()
+    POS = ['Outside', 'OnBoundary', 'Inside']
+
+    def posvar(name):
+        v = z3.Int(name)
+        return v
+
+    # Polygon
+    for nh in (0, 1, 2, 3):
+        for empty in (False, True):
+            names = ['shell'] + ['h%d' % i for i in range(nh)]
+            pv = {n: posvar('pos_%s_%d' % (n, nh)) for n in names}
+            dom = [z3.And(v >= 0, v <= 2) for v in pv.values()]
+            hs = names[1:]
+            valid = [z3.Not(z3.And(pv[a] != 0, pv[b] == 2)) for a in hs for b in hs if a != b]
+            state = {}
+
+            def make_args(state=state, names=names):
+                state['inside'], state['count'] = [False], [0]
+                poly = [('ring', 'shell'), [('ring', n) for n in names[1:]]]
+                return [Ref(lambda: poly), Ref(lambda: ('the-query',)), Ref(lambda: state['inside'][0], lambda v: state['inside'].__setitem__(0, v)),
+                        Ref(lambda: state['count'][0], lambda v: state['count'].__setitem__(0, v))]
+
+            def rel(ip, d, pv=pv):
+                v = pv[d[1][1]]
+                return ('fork', [(v == 0, Enum('Outside')), (v == 1, Enum('OnBoundary')), (v == 2, Enum('Inside'))])
+            uf = {'re:<geo_types::Polygon<T> as (algorithm::)?dimensions::HasDimensions>::is_empty': lambda ip, d, empty=empty: empty,
+                  're:geo_types::Polygon::<\\w+>::exterior': lambda ip, d: d[0][0], 're:geo_types::Polygon::<\\w+>::interiors': lambda ip, d: d[0][1],
+                  're:(algorithm::coordinate_position::)?coord_pos_relative_to_ring::<\\w+>': rel}
+            ip = Interp(mir, T, EXTRA, uf)
+            res = ip.explore(mir.find('geo', CP, sig=r'_1: &geo_types::Polygon<T>'), make_args, lambda state=state: (state['inside'][0], state['count'][0]))
+            npaths += len(res)
+            in_hole = z3.Or([pv[h] == 2 for h in hs]) if hs else z3.BoolVal(False)
+            on_hole = z3.Or([pv[h] == 1 for h in hs]) if hs else z3.BoolVal(False)
+            w_inside = z3.And(not empty, pv['shell'] == 2, z3.Not(in_hole), z3.Not(on_hole))
+            w_bound = z3.And(not empty, z3.Or(pv['shell'] == 1, z3.And(pv['shell'] == 2, z3.Not(in_hole), on_hole)))
+            cond = z3.And(dom + valid)
+            bad.append(z3.And(cond, z3.Not(z3.Or([pc for pc, _, _ in res]))))
+            for pc, _, (ins, cnt) in res:
+                bad.append(z3.And(cond, pc, z3.Or(z3.BoolVal(bool(ins)) != w_inside, z3.If(w_bound, 1, 0) != cnt)))
+
+    # members: MultiPolygon (one count if any member boundary), MultiLineString / GeometryCollection (sum)
+    for kind, sig, member_pat in (('mpoly', r'_1: &geo_types::MultiPolygon<T>', 'Polygon'), ('mls', r'_1: &geo_types::MultiLineString<T>', 'LineString'), ('gc', r'_1: &geo_types::GeometryCollection<T>', 'Geometry')):
+        for nm in (0, 1, 2, 3):
+            mv = [posvar('m_%s_%d_%d' % (kind, nm, i)) for i in range(nm)]
+            dom = [z3.And(v >= 0, v <= 2) for v in mv]
+            state = {}
+
+            def make_args(state=state, nm=nm):
+                state['inside'], state['count'] = [False], [0]
+                members = [('member', i) for i in range(nm)]
+                return [Ref(lambda: [members]), Ref(lambda: ('the-query',)), Ref(lambda: state['inside'][0], lambda v: state['inside'].__setitem__(0, v)),
+                        Ref(lambda: state['count'][0], lambda v: state['count'].__setitem__(0, v))]
+
+            def member(ip, d, pc, argv, mv=mv):
+                v = mv[d[0][1]]
+                which = ip.choose(3) if getattr(ip, 'replay', False) else None
+                if which is None:
+                    raise Untranslatable('member model needs re-execution mode')
+                if which == 2:
+                    argv[2].set(True)
+                if which == 1:
+                    argv[3].set(deref(argv[3]) + 1)
+                return ('fork', [(v == which, [])])
+            member.wants_raw = True
+            uf = {'re:<geo_types::%s<T> as (algorithm::)?coordinate_position::CoordinatePosition>::calculate_coordinate_position' % member_pat: member,
+                  're:<&geo_types::GeometryCollection<T> as IntoIterator>::into_iter': lambda ip, d: SliceIter(deref(d[0])[0])}
+            ip = Interp(mir, T, EXTRA, uf)
+            res = ip.explore(mir.find('geo', CP, sig=sig), make_args, lambda state=state: (state['inside'][0], state['count'][0]))
+            npaths += len(res)
+            any_in = z3.Or([v == 2 for v in mv]) if mv else z3.BoolVal(False)
+            nb = z3.IntVal(0)
+            for v in mv:
+                nb = nb + z3.If(v == 1, 1, 0)
+            w_cnt = z3.If(nb > 0, 1, 0) if kind == 'mpoly' else nb
+            cond = z3.And(dom) if dom else z3.BoolVal(True)
+            bad.append(z3.And(cond, z3.Not(z3.Or([pc for pc, _, _ in res]))))
+            for pc, _, (ins, cnt) in res:
+                bad.append(z3.And(cond, pc, z3.Or(z3.BoolVal(bool(ins)) != any_in, w_cnt != cnt)))
+
+    # the provided method: mod-2 rule over the count
+    fn = mir.find('geo', r'algorithm::coordinate_position::CoordinatePosition::coordinate_position')
+    for ins in (False, True):
+        for cnt in range(5):
+            def calc(ip, d, pc, argv, ins=ins, cnt=cnt):
+                argv[2].set(ins)
+                argv[3].set(cnt)
+                return []
+            calc.wants_raw = True
+            ip = Interp(mir, T, EXTRA, {'re:<Self as (algorithm::)?coordinate_position::CoordinatePosition>::calculate_coordinate_position': calc})
+            outs = ip.call_fn(fn, [Ref(lambda: ('geometry',)), Ref(lambda: ('the-query',))], z3.BoolVal(True))
+            npaths += len(outs)
+            want = 'OnBoundary' if cnt % 2 == 1 else ('Inside' if ins else 'Outside')
+            if not (len(outs) == 1 and variant_is(deref(outs[0][1]), want)):
+                bad.append(z3.BoolVal(True))
+    st, info, model = check_unsat('coordinate_position_assembly', [z3.Or(bad)])
+    return dict(theory='Int (positions as 0/1/2) + structural; ring / member positions uninterpreted; holes assumed pairwise non-overlapping (validity)', functions=['CoordinatePosition for Polygon / MultiPolygon / MultiLineString / GeometryCollection: calculate_coordinate_position', 'CoordinatePosition::coordinate_position (provided method)'], paths=npaths, status=st, info=info, model=None, replay=('position_assembly', ''))
+
+
 # ---- C05 kernels
 
 @obligation('C05', 'line_determinant_int', 'for ALL integers: Line::determinant() = start.x*end.y - start.y*end.x (the shoelace term)')
